@@ -75,10 +75,12 @@ fn run_trace(line: &str, dir: &str) -> String {
     let cfg: Vec<&str> = parts[0].split_whitespace().collect();
     let items: Vec<String> = parts[1].split(';').map(|s| s.trim().to_string()).filter(|s| !s.is_empty()).collect();
     let idle = idle_ms();
+    shim::AUTO_SNAP.store(false, std::sync::atomic::Ordering::SeqCst);
     shim::start(dir);
     shim::logline(format!("c open {}", cfg.join(" ")));
     let mut st: Option<Store> = match open_store(&cfg, dir) {
         OpenRes::Ok(s) => {
+            shim::wait_worker_named();
             shim::logline("c opened".to_string());
             Some(s)
         }
@@ -114,6 +116,7 @@ fn run_trace(line: &str, dir: &str) -> String {
                 shim::logline("c idle".to_string());
             }
             "fault" => shim::add_fault(t[1], pu(t[2])),
+            "autosnap" => shim::AUTO_SNAP.store(true, std::sync::atomic::Ordering::SeqCst),
             "snap" => {
                 shim::settle(idle);
                 shim::logline(format!("c snap {}", disk_str(dir)));
@@ -186,6 +189,7 @@ fn run_trace(line: &str, dir: &str) -> String {
                 shim::logline(format!("c open {}", t[1..].join(" ")));
                 match open_store(&t[1..], dir) {
                     OpenRes::Ok(s) => {
+                        shim::wait_worker_named();
                         shim::logline("c opened".to_string());
                         st = Some(s);
                     }
